@@ -56,7 +56,7 @@ pub fn valid_addr(s: &str) -> bool {
 }
 
 pub fn restricted(w: &World, d: &str) -> bool {
-    matches!(w.chain.markers.get(d).copied(), Some(MarkerKind::Restricted) | Some(MarkerKind::RestrictedFinalized))
+    matches!(w.chain.markers.get(d).copied(), Some(MarkerKind::Restricted) | Some(MarkerKind::RestrictedFinalized) | Some(MarkerKind::RestrictedGated))
 }
 pub fn marker_of(w: &World, d: &str) -> MarkerKind {
     w.chain.markers.get(d).copied().unwrap_or(MarkerKind::NoMarker)
